@@ -314,17 +314,18 @@ Definition np_atleast_shape (s : list Z) (nd : Z) : list Z := repeat 1 (Z.to_nat
    flip  (index::flip_slices builds one (None,None,±1) slice per axis; view::flip = apply_slice)
    ===================================================================================== *)
 
-(* flip_slices (flip.hpp:14-43): for i < dim: step = in_axis(i) ? -1 : 1; the axis is compared
-   with i as it is — a negative axis equals no i *)
-Definition in_axis (ax : axarg) (i : Z) : bool :=
+(* flip_slices (flip.hpp:14-48): for i < dim: step = in_axis(i) ? -1 : 1, where an axis a is
+   first normalised the way numpy.flip does (the `normalize` lambda: a < 0 -> a + dim; no range test) *)
+Definition flip_norm (dim a : Z) : Z := if a <? 0 then a + dim else a.
+Definition in_axis (dim : Z) (ax : axarg) (i : Z) : bool :=
   match ax with
   | AxNone => true
-  | AxOne a => a =? i
-  | AxList l => existsb (fun a => a =? i) l
+  | AxOne a => flip_norm dim a =? i
+  | AxList l => existsb (fun a => flip_norm dim a =? i) l
   end.
-Fixpoint flip_steps_from (ax : axarg) (i : Z) (dim : nat) : list Z :=
-  match dim with O => [] | S d => (if in_axis ax i then -1 else 1) :: flip_steps_from ax (i + 1) d end.
-Definition flip_slices (dim : Z) (ax : axarg) : list Z := flip_steps_from ax 0 (Z.to_nat dim).
+Fixpoint flip_steps_from (dim : Z) (ax : axarg) (i : Z) (fuel : nat) : list Z :=
+  match fuel with O => [] | S d => (if in_axis dim ax i then -1 else 1) :: flip_steps_from dim ax (i + 1) d end.
+Definition flip_slices (dim : Z) (ax : axarg) : list Z := flip_steps_from dim ax 0 (Z.to_nat dim).
 (* the slice (None,None,step) on an axis of extent n keeps the extent; index x reads
    n-1-x for step -1 and x for step 1 *)
 Fixpoint slice_steps_index (steps s i : list Z) : list Z :=
